@@ -24,3 +24,6 @@ gen_hashpad.main([os.path.join(b, "src"), vlib.LEAN])
 
 import gen_submit
 gen_submit.main([os.path.join(b, "src"), vlib.LEAN])
+
+import gen_resubmit
+gen_resubmit.main([os.path.join(b, "src"), vlib.LEAN])
